@@ -123,8 +123,8 @@ out:
 }
 
 /* ---- layered reads: the path query of a result merged from several files is the empty string, whatever the files contain ---- */
-static int lp_main, lp_a, lp_b, lp_ep;
-static void gen_lp(void) { lp_main = mc_choose(2); lp_a = mc_choose(4); lp_b = mc_choose(4); lp_ep = mc_choose(2); }
+static int lp_main, lp_a, lp_b, lp_ep, lp_rel;
+static void gen_lp(void) { lp_main = mc_choose(2); lp_a = mc_choose(4); lp_b = mc_choose(4); lp_ep = mc_choose(3); lp_rel = mc_choose(2); }
 static void exec_lp(void)
 {
   static const char *KIND[4] = { "absent", "with keys", "comments only", "empty" };
@@ -132,30 +132,51 @@ static void exec_lp(void)
   snprintf(d0, sizeof d0, "%s/lp/usr", mc_work); snprintf(d1, sizeof d1, "%s/lp/etc", mc_work);
   char cmd[1200]; snprintf(cmd, sizeof cmd, "rm -rf %s/lp && mkdir -p %s/cfg.conf.d %s/cfg.conf.d", mc_work, d0, d1);
   if (system(cmd) != 0) mc_die("mkdir");
-  snprintf(sig, sizeof sig, "layered read via %s: main file %s, vendor drop-in %s, local drop-in %s", lp_ep ? "econf_readConfig(PARSING_DIRS)" : "econf_readDirs",
+  static const char *EPL[3] = { "econf_readDirs", "econf_readConfig(PARSING_DIRS)", "econf_readDirsHistory" };
+  snprintf(sig, sizeof sig, "layered read via %s with %s directories: main file %s, vendor drop-in %s, local drop-in %s", EPL[lp_ep], lp_rel ? "RELATIVE" : "absolute",
            lp_main ? "present" : "absent", KIND[lp_a], KIND[lp_b]);
+  const char *a0 = lp_rel ? "lp/usr" : d0, *a1 = lp_rel ? "lp/etc" : d1;
+  char expect[3][600]; int ne = 0;
   snprintf(mc_case_sig, sizeof mc_case_sig, "%s", sig);
   mc_log("%s\n", sig);
   int n = 0;
   const char *content[4] = { NULL, "k=drop\nextra=1\n", "# only a comment\n#k=1\n", "" };
-  if (lp_main) { snprintf(p, sizeof p, "%s/cfg.conf", d0); mc_write_file(p, "k=main\n[S]\ns=1\n", 16); n++; }
-  if (lp_a) { snprintf(p, sizeof p, "%s/cfg.conf.d/10-a.conf", d0); mc_write_file(p, content[lp_a], strlen(content[lp_a])); n++; }
-  if (lp_b) { snprintf(p, sizeof p, "%s/cfg.conf.d/20-b.conf", d1); mc_write_file(p, content[lp_b], strlen(content[lp_b])); n++; }
-  econf_file *kf = NULL; econf_err rc;
-  if (lp_ep) { char opt[900]; snprintf(opt, sizeof opt, "PARSING_DIRS=%s:%s", d0, d1); rc = econf_newKeyFile_with_options(&kf, opt); if (!rc) rc = econf_readConfig(&kf, NULL, NULL, "cfg", "conf", "=", "#"); }
-  else rc = econf_readDirs(&kf, d0, d1, "cfg", "conf", "=", "#");
+  if (lp_main) { snprintf(p, sizeof p, "%s/cfg.conf", d0); mc_write_file(p, "k=main\n[S]\ns=1\n", 15); n++; snprintf(expect[ne++], 600, "%s", p); }
+  if (lp_a) { snprintf(p, sizeof p, "%s/cfg.conf.d/10-a.conf", d0); mc_write_file(p, content[lp_a], strlen(content[lp_a])); n++; snprintf(expect[ne++], 600, "%s", p); }
+  if (lp_b) { snprintf(p, sizeof p, "%s/cfg.conf.d/20-b.conf", d1); mc_write_file(p, content[lp_b], strlen(content[lp_b])); n++; snprintf(expect[ne++], 600, "%s", p); }
+  econf_file *kf = NULL; econf_file **hist = NULL; size_t hn = 0; econf_err rc;
+  if (lp_ep == 1) { char opt[900]; snprintf(opt, sizeof opt, "PARSING_DIRS=%s:%s", a0, a1); rc = econf_newKeyFile_with_options(&kf, opt); if (!rc) rc = econf_readConfig(&kf, NULL, NULL, "cfg", "conf", "=", "#"); }
+  else if (lp_ep == 0) rc = econf_readDirs(&kf, a0, a1, "cfg", "conf", "=", "#");
+  else rc = econf_readDirsHistory(&hist, &hn, a0, a1, "cfg", "conf", "=", "#");
   mc_st->libcalls += 2;
   if (n == 0) { if (rc != ECONF_NOFILE) mc_fail(sig, "no file but rc=%d; %s", (int)rc, sig); }
-  else if (rc != ECONF_SUCCESS || !kf) mc_fail(sig, "layered read failed: %d; %s", (int)rc, sig);
-  else if (n >= 2) {
+  else if (rc != ECONF_SUCCESS) mc_fail(sig, "layered read failed: %d; %s", (int)rc, sig);
+  else if (lp_ep == 2) {
+    /* every history member carries the absolute path of its file, also for relative directory arguments */
+    if (hn != (size_t)n) mc_fail(sig, "history has %zu members, %d files exist; %s", hn, n, sig);
+    for (size_t i = 0; i < hn && i < (size_t)ne; i++) {
+      char *path = econf_getPath(hist[i]);
+      if (!path || strcmp(path, expect[i])) mc_fail(sig, "history member %zu: econf_getPath = \"%s\", absolute path of the file is \"%s\"; %s", i, path ? path : "<NULL>", expect[i], sig);
+      free(path);
+      size_t nk = 0; char **keys = NULL;
+      if (econf_getKeys(hist[i], NULL, &nk, &keys) == ECONF_SUCCESS && nk) {
+        econf_ext_value *ev = NULL;
+        if (econf_getExtValue(hist[i], NULL, keys[0], &ev) == ECONF_SUCCESS && ev) { if (!ev->file || strcmp(ev->file, expect[i])) mc_fail(sig, "history member %zu: extended value reports file \"%s\", expected \"%s\"; %s", i, ev->file ? ev->file : "<NULL>", expect[i], sig); econf_freeExtValue(ev); }
+        econf_freeArray(keys);
+      }
+    }
+  } else if (!kf) mc_fail(sig, "success without object; %s", sig);
+  else {
     char *path = econf_getPath(kf);
-    if (!path || *path) mc_fail(sig, "econf_getPath of a result merged from %d files = \"%s\", expected the empty string; %s", n, path ? path : "<NULL>", sig);
+    if (n >= 2) { if (!path || *path) mc_fail(sig, "econf_getPath of a result merged from %d files = \"%s\", expected the empty string; %s", n, path ? path : "<NULL>", sig); }
+    else if (path && *path && strcmp(path, expect[0])) mc_fail(sig, "only one file was read; econf_getPath = \"%s\" is neither empty nor the absolute path \"%s\" of that file; %s", path, expect[0], sig);
     free(path);
   }
+  if (hist) { for (size_t i = 0; i < hn; i++) econf_freeFile(hist[i]); free(hist); }
   if (kf) econf_freeFile(kf);
   mc_st->compared++;
   if (n >= 2) mc_st->nontrivial++;
-  mc_outcome((uint64_t)(lp_main * 64 + lp_a * 16 + lp_b * 4 + lp_ep));
+  mc_outcome((uint64_t)(lp_main * 128 + lp_a * 32 + lp_b * 8 + lp_ep * 2 + lp_rel));
   if (mc_want_sample()) mc_sample("%s", sig);
 }
 
@@ -164,6 +185,7 @@ int main(int argc, char **argv)
   mc_args(argc, argv);
   if (mc_opt.param[3]) {
     mc_split = 2;
+    if (chdir(mc_work) != 0) mc_die("chdir");
     if (mc_opt.case_id) return mc_replay(gen_lp, exec_lp, mc_opt.case_id);
     if (mc_explore(gen_lp, exec_lp, 0, 0)) mc_st->bound_completed = 0;
     mc_finish();
